@@ -736,6 +736,47 @@ pub fn run_c07(cfg: &Cfg) -> Report {
         }
     });
     rep.stats.merge(s);
+    // lane 2b: run structure: payloads made of zero-separated runs whose lengths sit around the 254-byte block size
+    let s = parallel(cfg, 4, |t| {
+        let mut gb = GuardBuf::new(4);
+        let menu: &[usize] = if t.cfg.tier == Tier::Tiny { &[0, 253, 254] } else { &[0, 1, 2, 252, 253, 254, 255, 507, 508, 509] };
+        let mut idx = 0u64;
+        let k = menu.len();
+        for nruns in 1..=3usize {
+            for code in 0..k.pow(nruns as u32) {
+                for trailing_zero in [false, true] {
+                    idx += 1;
+                    if !t.mine(idx) || t.cfg.expired() {
+                        continue;
+                    }
+                    let mut plain: Vec<u8> = Vec::new();
+                    let mut c = code;
+                    for r in 0..nruns {
+                        if r > 0 {
+                            plain.push(0);
+                        }
+                        let len = menu[c % k];
+                        c /= k;
+                        plain.extend((0..len).map(|i| 1 + ((i * 7 + r) % 255) as u8));
+                    }
+                    if trailing_zero {
+                        plain.push(0);
+                    }
+                    let shape = msg_shape(plain.len());
+                    let text = shape.text();
+                    let sfp = fp(text.as_bytes());
+                    let mut frame = cobs_encode(&plain);
+                    frame.push(0);
+                    t.st.count("run_structure_frames");
+                    c07_case(t, &mut gb, &shape, &text, sfp, "run_structure", &frame);
+                    frame.extend_from_slice(&[3, 9, 9, 0]);
+                    c07_case(t, &mut gb, &shape, &text, sfp, "run_structure_with_tail", &frame);
+                }
+            }
+        }
+    });
+    rep.stats.merge(s);
+    rep.floor("run_structure_frames", if cfg.tier == Tier::Tiny { 1 } else { 500 });
     // lane 3: long frames (encoded lengths around every power of two up to 2^20 / 2^17 quick), zero-free and mixed
     if !matches!(cfg.tier, Tier::Tiny) {
         let s = parallel(cfg, 3, |t| {
@@ -786,7 +827,7 @@ pub fn run_c07(cfg: &Cfg) -> Report {
         rep.floor("long_frames", 50);
     }
     rep.rule = "cases = (target shape, input bytes): every byte string up to length 7 (quick) / 9 (thorough) over {00,01,02,03,05,FF}; valid frames of random values with every \
-                truncation and every single-byte substitution; code bytes pointing exactly at / 1 / 2 past the end; random bytes; long frames of bytes/str/seq(u8) with encoded lengths 2^k-3..2^k+5 for k = 9..17 (quick) / 20 (thorough), zero-free, sparse-zero and random, valid / with tail / truncated / one byte corrupted; targets u8, (u8,u8), bytes, str, seq(u16), \
+                truncation and every single-byte substitution; code bytes pointing exactly at / 1 / 2 past the end; random bytes; every payload made of 1-3 zero-separated runs of lengths {0,1,2,252,253,254,255,507,508,509} (with and without a trailing zero, alone and followed by other data); long frames of bytes/str/seq(u8) with encoded lengths 2^k-3..2^k+5 for k = 9..17 (quick) / 20 (thorough), zero-free, sparse-zero and random, valid / with tail / truncated / one byte corrupted; targets u8, (u8,u8), bytes, str, seq(u16), \
                 option(bool), unit and random shapes; every input decoded by take_from_bytes_cobs and from_bytes_cobs flush against a guard page on either side. \
                 Non-trivial = non-empty input; distinct = fingerprint of (shape, input)."
         .into();
